@@ -39,6 +39,10 @@ def _pkey(p):
     return repr([p[0]] + [("f", e[1]) if isinstance(e, list) and e and e[0] == "f" else (tuple(e) if isinstance(e, list) else e) for e in p[1:]])
 
 
+import re
+PARAM_RE = re.compile(r"^(?:_(\d+)|\(\*_(\d+)\))((?:\.\w+)*)$")
+
+
 def place_desc(p):
     """`_1.epoch`, `(*_1).ms`: a readable, name-based description of an input place (field names, not local names)."""
     out = "_%d" % p[0]
@@ -89,6 +93,8 @@ class State:
         self.discof = {}  # value key of a discriminant -> (wrap tuple, discriminant value of the payload variant)
         self.variant = {} # aggregate key -> variant name
         self.none_steps = []  # checked steps whose failure side was taken on this path
+        self.copyof = {}  # place key of a local -> place it is a whole (non-integer, immutable) copy of
+        self.quot = {}    # value key -> (exact form of x, C): v = x / C, truncating, C > 0
         self.n = 0
 
     def copy(self):
@@ -97,6 +103,7 @@ class State:
         s.agg = {k: dict(v) for k, v in self.agg.items()}; s.n = self.n
         s.rem = dict(self.rem)
         s.aff = dict(self.aff); s.cong = dict(self.cong); s.origin = dict(self.origin); s.wrap = dict(self.wrap)
+        s.copyof = dict(self.copyof); s.quot = dict(self.quot)
         s.ovf = dict(self.ovf); s.discof = dict(self.discof); s.variant = dict(self.variant); s.none_steps = list(self.none_steps)
         return s
 
@@ -112,6 +119,7 @@ class Analysis:
         self.f = fn
         self.max_paths = max_paths
         self.resolver = resolver    # name -> Fn (facts.fn): lets `Option::map(checked result, capture-less closure)` be followed
+        self.depth = 0
         self.returns = []       # list of {"": (lo,hi)} or {field: (lo,hi)}
         self.rets = []          # list of (final state, value key of the returned value)
         self.checked_log = {}   # (block, checked op) -> named exact form of its mathematical result
@@ -142,6 +150,11 @@ class Analysis:
 
     def vkey(self, st, p, default_range=None):
         """Abstract value key of a place read (immutable places share their key)."""
+        for _ in range(8):
+            src = st.copyof.get(_pkey(p[:1]))
+            if src is None or len(p) == 1:
+                break
+            p = list(src) + list(p[1:])
         k = _pkey(p)
         if k in st.alias:
             return st.alias[k]
@@ -158,10 +171,18 @@ class Analysis:
                 if vk:
                     return vk
         r = default_range or (self.ty_range(p[0]) if len(p) == 1 else None) or RANGES["i128"]
-        vk = st.fresh(*r)
-        st.origin[vk] = place_desc(p)
         shared_ref = self.f.locals[p[0]].startswith("&") and not self.f.locals[p[0]].startswith("&mut")
-        if not (p[0] in self.mutroots and len(p) > 1) and ("*" not in p[1:] or shared_ref):
+        shared = not (p[0] in self.mutroots and len(p) > 1) and ("*" not in p[1:] or shared_ref)
+        if shared and len(p) > 1:
+            # an immutable input place has one value however it is reached (by index, by name from a callee summary)
+            want = place_desc(p)
+            for r0, o in st.origin.items():
+                if o == want:
+                    st.alias[k] = r0
+                    return r0
+        vk = st.fresh(*r)
+        if shared:
+            st.origin[vk] = place_desc(p)   # only immutable places are named: a name identifies one value
             st.alias[k] = vk
         return vk
 
@@ -305,12 +326,17 @@ class Analysis:
 
     def assign(self, st, dest, rv):
         dk = _pkey(dest)
-        st.alias.pop(dk, None); st.pred.pop(dk, None); st.wrap.pop(dk, None)
+        st.alias.pop(dk, None); st.pred.pop(dk, None); st.wrap.pop(dk, None); st.copyof.pop(dk, None)
         k = rv[0]
         dty = self.place_ty(dest)
         if k == "use":
             if rv[1][0] in "cm" and _pkey(rv[1][1]) in st.wrap:
                 st.wrap[dk] = st.wrap[_pkey(rv[1][1])]
+                return
+            if rv[1][0] in "cm" and len(dest) == 1 and dty not in RANGES and dty != "bool" and dest[0] not in self.mutroots \
+                    and rv[1][1][0] not in self.mutroots and _pkey(rv[1][1]) not in st.alias and _pkey(rv[1][1]) not in st.pred:
+                # whole copy / move of a struct that nothing mutates: fields of the copy are the fields of the source
+                st.copyof[dk] = list(rv[1][1])
                 return
             a = self.operand(st, rv[1], dty)
             if a[0] == "i":
@@ -376,6 +402,9 @@ class Analysis:
             if op == "Rem" and x[0] == "i" and y[0] == "k" and y[1] != 0:
                 st.rem[st.alias[dk]] = (x[1], y[1])
                 st.cong[st.alias[dk]] = (self.aff_of(st, x), abs(y[1]))
+            if op == "Div" and x[0] == "i" and y[0] == "k" and y[1] > 0:
+                q = st.quot.get(x[1])
+                st.quot[st.alias[dk]] = (q[0], q[1] * y[1]) if q else (self.aff_of(st, x), y[1])
             return
         if k == "un" and rv[1] == "Not":
             a = self.operand(st, rv[2])
@@ -431,8 +460,10 @@ class Analysis:
         c = callee(t)
         dest = t[3]
         dk = _pkey(dest)
-        st.alias.pop(dk, None); st.pred.pop(dk, None); st.wrap.pop(dk, None)
+        st.alias.pop(dk, None); st.pred.pop(dk, None); st.wrap.pop(dk, None); st.copyof.pop(dk, None)
         last = c.split("::")[-1]
+        if self.resolver is not None and c.startswith("cedar_policy") and self.depth < 6 and self.summary(st, c, t):
+            return
         if last == "branch" and "Try" in c and len(t[2]) == 1 and t[2][0][0] in "cm" and _pkey(t[2][0][1]) in st.wrap:
             st.wrap[dk] = st.wrap[_pkey(t[2][0][1])]
             return
@@ -487,6 +518,96 @@ class Analysis:
                 lo = 0 if a <= 0 <= b else min(abs(a), abs(b))
                 st.alias[dk] = st.fresh(lo, max(abs(a), abs(b)))
                 return
+
+    def summary(self, st, c, t):
+        """Call of a small loop-free function of the workspace that returns one integer on one path: re-express its result (exact
+        affine form / truncating quotient over its parameters' fields) over the caller's argument places. -> handled?"""
+        g = self.resolver(c)
+        if g is None or len(g.blocks) > 24:
+            return False
+        try:
+            sub = Analysis(g, 32, self.resolver)
+            sub.depth = self.depth + 1
+            sub.run()
+        except (Unsupported, KeyError, IndexError, TypeError):
+            return False
+        if len(sub.rets) != 1:
+            return False
+        sst, svk = sub.rets[0]
+        if svk in sst.agg or sst.none_steps:
+            return False
+
+        def to_caller(form):
+            out = ({}, form[1])
+            for r, coef in form[0].items():
+                o = sst.origin.get(r)
+                m = PARAM_RE.match(o or "")
+                if not m or r in sst.cong or r in sst.quot:
+                    return None
+                i = int(m.group(1) or m.group(2)) - 1
+                if i >= len(t[2]) or t[2][i][0] not in "cm":
+                    return None
+                place = list(t[2][i][1])
+                if m.group(2):
+                    if not self.f.locals[place[0]].startswith("&") or len(place) != 1:
+                        return None
+                    place = place + ["*"]
+                for fld in (m.group(3) or "").split(".")[1:]:
+                    place.append(["f", -1, fld, None])
+                vk = self.vkey_named(st, place)
+                if vk is None:
+                    return None
+                out = aff_add(out, aff_scale(st.aff.get(vk) or ({vk: 1}, 0), coef))
+            return out
+        dk = _pkey(t[3])
+        q = sst.quot.get(svk)
+        if q is not None:
+            base = to_caller(q[0])
+            if base is None:
+                return False
+            lo, hi = sst.iv[svk]
+            nk = st.fresh(lo, hi)
+            st.quot[nk] = (base, q[1])
+            st.alias[dk] = nk
+            return True
+        form = to_caller(sst.aff.get(svk) or ({svk: 1}, 0))
+        if form is None:
+            return False
+        lo, hi = self.eval_form(st, form)
+        a, b = sst.iv[svk]
+        lo, hi = max(lo, a), min(hi, b)
+        if lo > hi:
+            return False
+        if len(form[0]) == 1 and form[1] == 0 and list(form[0].values()) == [1]:
+            st.alias[dk] = list(form[0])[0]     # the callee returns one of its inputs unchanged
+            return True
+        nk = st.fresh(lo, hi)
+        self.set_aff(st, nk, form)
+        st.alias[dk] = nk
+        return True
+
+    def vkey_named(self, st, place):
+        """vkey for a place whose field projections are given by *name* (index -1): resolved against the fields already read
+        by name, else created under the name."""
+        for _ in range(8):
+            src = st.copyof.get(_pkey(place[:1]))
+            if src is None or len(place) == 1:
+                break
+            place = list(src) + list(place[1:])
+        if not any(isinstance(e, list) and e and e[0] == "f" and e[1] == -1 for e in place[1:]):
+            return self.vkey(st, place)
+        if place[0] in self.mutroots:
+            return None
+        shared_ref = self.f.locals[place[0]].startswith("&") and not self.f.locals[place[0]].startswith("&mut")
+        if "*" in place[1:] and not shared_ref:
+            return None
+        want = place_desc(place)
+        for r, o in st.origin.items():
+            if o == want:
+                return r
+        vk = st.fresh(*RANGES["i64"])
+        st.origin[vk] = want
+        return vk
 
     def map_closure(self, st, w, clocal):
         """`wrapped.map(closure)`: analyse the capture-less closure once and re-express what it returns over the payload."""
